@@ -160,18 +160,23 @@ class Loop(abc.ABC, Generic[_T]):
         assert isinstance(clear_next, bool), \
             '%s is not of type bool'
 
-        if clear_current and self._current_world_handle is not None:
-            self._current_world_handle.clear()
-
-        if clear_next:
+        # Clearing the current handle when it is also the next one
+        # means reloading it
+        same_handle = world_handle is self._current_world_handle
+        if clear_next or (clear_current and same_handle):
             world_handle.clear()
 
         # Load before committing: if loading raises (e.g. Quit) world
-        # and handle are left paired
+        # and handle are left paired, and the handle of the world which
+        # keeps running is left untouched
         world = world_handle()
 
         assert isinstance(world, World), \
             '%s is not of type World' % world
+
+        if (clear_current and not same_handle
+                and self._current_world_handle is not None):
+            self._current_world_handle.clear()
 
         self._current_world_handle = world_handle
         self._current_world = world
